@@ -4,6 +4,7 @@ package main
 import (
 	"context"
 	"fmt"
+	"os"
 	"regexp"
 	"sort"
 	"strings"
@@ -33,8 +34,27 @@ var (
 	tier    string
 )
 
+var (
+	probe      []string
+	chainOps   = []string{"*", "and", "or", "unless"}
+	chainRight = []string{"bar", "sum(bar)", "sum by(a) (bar)", "vector(1)"}
+	reOps      = []string{"and", "unless", "*", "or"}
+	reMod1     = []string{"", "on(a)", "ignoring(b)", "on(a, a)"}
+	reAgg      = []string{"sum without(a) (%s)", "sum without(a, a) (%s)", "sum by(b) (%s)", "sum by(b, b) (%s)", "sum by(a, b) (%s)", "min without(a, c) (%s)", "sum(%s)"}
+	reMod2     = []string{"on(b) group_left(a)", "on(b) group_left(a, a)", "ignoring(a) group_left(a)", "ignoring(a, a) group_left(a)", "ignoring(a, c) group_left(a)", "on(b) group_left()", "on(b, b) group_left(a)", "on(b) group_right(a)"}
+	reSel3     = []string{"foo", "bar", `foo{a="x"}`}
+)
+
 func setup(t string) {
 	tier = t
+	if f := os.Getenv("VERIF_C04_PROBE"); f != "" {
+		b, _ := os.ReadFile(f)
+		for _, l := range strings.Split(string(b), "\n") {
+			if strings.TrimSpace(l) != "" {
+				probe = append(probe, l)
+			}
+		}
+	}
 	engine = promqlsim.NewEngine()
 	for _, m := range []string{"foo", "bar"} {
 		for _, a := range []string{"", "x", "y"} {
@@ -124,29 +144,68 @@ func reportedLabels(expr string) (map[string]bool, string) {
 func body(c *explore.Chooser) *explore.Case {
 	// sub-spaces: 0 = <=1 operator over the full alphabet; 1 = core unary wrapper around <=1 operator (core);
 	// thorough adds 2 = <=2 operators (core, complete) and 3 = <=2 operators (full alphabet, time-capped)
-	nvar := 2
+	subs := []string{"full1", "wrapped", "chain", "reinclude"}
 	if tier == "thorough" {
-		nvar = 4
+		subs = append(subs, "core2", "full2")
+	}
+	if len(probe) > 0 { // VERIF_C04_PROBE=file: examine exactly the expressions listed there (debugging aid)
+		subs = []string{"probe"}
 	}
 	var e promqlgen.Expr
 	var ok bool
 	k := 2
-	switch c.Free(nvar, "subspace") {
-	case 0:
+	core := &promqlgen.Core
+	pick := func(l []string, tag string) string { return l[c.Free(len(l), tag)] }
+	switch subs[c.Free(len(subs), "subspace")] {
+	case "probe":
+		e = promqlgen.Expr{Text: pick(probe, "probe"), Metrics: map[string]bool{"foo": true, "bar": true}}
+		ok = true
+	case "full1":
 		e, ok = promqlgen.Gen(c, &promqlgen.Full, 1, "e")
-	case 1:
+	case "wrapped":
 		u := c.Free(len(promqlgen.Core.Unary), "outer")
 		var in promqlgen.Expr
 		in, ok = promqlgen.Gen(c, &promqlgen.Core, 1, "e")
 		if ok && (in.Scalar || in.Ops == 0) {
-			ok = false // covered by sub-space 0
+			ok = false // covered by sub-space full1
 		}
 		if ok {
 			e = promqlgen.Expr{Text: fmt.Sprintf(promqlgen.Core.Unary[u], in.Text), Metrics: in.Metrics, Ops: in.Ops + 1}
 		}
-	case 2:
+	case "chain":
+		// U2(U1(foo{..})) OP MOD R, both orientations: two stacked label transformations feeding a join
+		u2, u1 := pick(core.Unary, "u2"), pick(core.Unary, "u1")
+		sel := "foo"
+		if m := pick(core.Matchers, "m"); m != "" {
+			sel = "foo{" + m + "}"
+		}
+		op, mod, r := pick(chainOps, "op"), pick(core.Modifiers, "mod"), pick(chainRight, "r")
+		l := fmt.Sprintf(u2, fmt.Sprintf(u1, sel))
+		if c.Free(2, "flip") == 1 {
+			l, r = r, l
+		}
+		e = promqlgen.Expr{Text: "(" + l + ") " + op + " " + mod + " (" + r + ")", Metrics: map[string]bool{"foo": true, "bar": true}, Ops: 3}
+		ok = true
+	case "reinclude":
+		// SEL OP MOD1 (AGG(bar) * MOD2 SEL3): a label removed by an aggregation (lists with repeated names too)
+		// and brought back by group_left/right, then flowing through an outer join
+		sel := "foo"
+		if m := pick(core.Matchers, "m"); m != "" {
+			sel = "foo{" + m + "}"
+		}
+		op, mod1, agg, mod2, sel3 := pick(reOps, "op"), pick(reMod1, "mod1"), pick(reAgg, "agg"), pick(reMod2, "mod2"), pick(reSel3, "sel3")
+		inner := fmt.Sprintf(agg, "bar") + " * " + mod2 + " " + sel3
+		if strings.Contains(mod2, "group_right") {
+			inner = sel3 + " * " + mod2 + " " + fmt.Sprintf(agg, "bar")
+		}
+		e = promqlgen.Expr{Text: sel + " " + op + " " + mod1 + " (" + inner + ")", Metrics: map[string]bool{"foo": true, "bar": true}, Ops: 3}
+		if c.Free(2, "flip") == 1 {
+			e.Text = "(" + inner + ") " + op + " " + mod1 + " " + sel
+		}
+		ok = true
+	case "core2":
 		e, ok = promqlgen.Gen(c, &promqlgen.Core, 2, "e")
-	case 3:
+	case "full2":
 		e, ok = promqlgen.Gen(c, &promqlgen.Full, 2, "e")
 	}
 	if !ok || e.Scalar {
@@ -335,7 +394,7 @@ func describeSources(src []utils.Source) []string {
 func main() {
 	explore.Main(&explore.Config{
 		Property: "C04", Level: "exploration",
-		Rule: "PromQL expressions enumerated from a grammar (selectors x matcher sets, aggregations with by/without, topk/count_values/label_replace/label_join/absent/range functions/subquery/offset, arithmetic/comparison/set operators x on/ignoring/group_left/group_right modifiers): quick = all with <=1 operator node over the full alphabet and every core unary wrapper around every <=1-operator core expression; thorough adds all with <=2 operator nodes over the core alphabet (complete) and over the full alphabet (time-capped). Every expression on which pint makes a claim (a branch that cannot have some label of {a,b,c,__name__}, or a dead branch) is evaluated by the vendored Prometheus engine on EVERY database of <=2 series drawn from {foo,bar} x {a: absent|x|y} x {b: absent|x} x {c: absent|x}; oracle (i) labels the real alerts/template check reports for single-branch queries never appear on a returned series, (ii) every returned series is consistent with some live branch. distinct = expression text; non-trivial = pint makes a claim",
+		Rule: "PromQL expressions enumerated from a grammar (selectors x matcher sets, aggregations with by/without, topk/count_values/label_replace/label_join/absent/range functions/subquery/offset, arithmetic/comparison/set operators x on/ignoring/group_left/group_right modifiers): quick = the 3-operator shapes chain (U2(U1(sel)) op mod R, both orientations, core unary/modifiers) and reinclude (sel op mod1 (agg(bar) * mod2 sel3), label lists with repeated names), all with <=1 operator node over the full alphabet and every core unary wrapper around every <=1-operator core expression; thorough adds all with <=2 operator nodes over the core alphabet (complete) and over the full alphabet (time-capped). Every expression on which pint makes a claim (a branch that cannot have some label of {a,b,c,__name__}, or a dead branch) is evaluated by the vendored Prometheus engine on EVERY database of <=2 series drawn from {foo,bar} x {a: absent|x|y} x {b: absent|x} x {c: absent|x}; oracle (i) labels the real alerts/template check reports for single-branch queries never appear on a returned series, (ii) every returned series is consistent with some live branch. distinct = expression text; non-trivial = pint makes a claim",
 		Assumptions: []string{
 			"the engine (promql.NewEngine of the vendored Prometheus) over our 60-line in-memory storage is the truth; one evaluation instant, 5m lookback, rising samples every minute",
 			"engine errors (many-to-many matching) count as no result",
